@@ -82,6 +82,20 @@ def placeRef (refs : List Ref) (refIndex : Option Nat) (ref : Ref) : List Ref ×
 def dedupeRefs (refs : List Ref) (idx : Nat) (ref : Ref) : List Ref :=
   (refs.zipIdx.filter (fun p => p.2 = idx || !sameVariant p.1 ref)).map (·.1)
 
+/-- the identifier named by the reference that `placeRef` overwrites, if it overwrites one -/
+def replacedId (refs : List Ref) (refIndex : Option Nat) : Option Str :=
+  match refIndex with
+  | some i => (refs[i]?).map (·.id)
+  | none => none
+
+/-- after the index write: the response the replaced reference named is removed once no reference names it
+    (the new response varies on other fields, so its identifier differs; left behind it could never be read,
+    replaced or invalidated again) -/
+def dropReplaced (refs newRefs : List Ref) (refIndex : Option Nat) (ok2 : Bool) (k : Prog) : Prog :=
+  match replacedId refs refIndex with
+  | some old => if ok2 && !old.isEmpty && !(newRefs.any fun x => x.id = old) then Prog.delete old k else k
+  | none => k
+
 /-- StoreResponse; the continuation receives the response as the caller sees it afterwards
     (its hop-by-hop fields are removed in place) -/
 def storeResponse (cfg : Cfg) (reqH : Header) (r : Resp) (bodyOk : Bool) (key : Str) (refs : List Ref)
@@ -101,7 +115,8 @@ def storeResponse (cfg : Cfg) (reqH : Header) (r : Resp) (bodyOk : Bool) (key : 
       let ref : Ref := { id := id, vary := vary, resolved := resolved,
                          receivedAt := timeOf cfg.glue (Header.get r'.header sDate) }
       let (refs1, idx) := placeRef refs refIndex ref
-      Prog.setRefs key (dedupeRefs refs1 idx ref) fun _ => k r'
+      Prog.setRefs key (dedupeRefs refs1 idx ref) fun ok2 =>
+        dropReplaced refs (dedupeRefs refs1 idx ref) refIndex ok2 (k r')
 
 /-! ### validationresponsehandler.go -/
 
